@@ -661,11 +661,19 @@ func parseExtID(s string) (ext *extID, isExt bool) {
 	if _, err := agd.NewProfileID(strings.ToLower(parts[1])); err != nil {
 		return nil, true
 	}
-	if _, err := agd.NewHumanID(parts[2]); err != nil {
-		return nil, true
+	human := parts[2]
+	if _, err := agd.NewHumanID(human); err != nil {
+		// Not in normal form: the resolver normalises such names as best it
+		// can.  The reference does so with a parser of its own that is used
+		// this once, and keeps a copy of the result.
+		norm, nerr := agd.NewHumanIDParser().ParseNormalized(human)
+		if nerr != nil {
+			return nil, true
+		}
+		human = strings.Clone(string(norm))
 	}
 
-	return &extID{prof: strings.ToLower(parts[1]), human: strings.ToLower(parts[2])}, true
+	return &extID{prof: strings.ToLower(parts[1]), human: strings.ToLower(human)}, true
 }
 
 func idFromSNI(sni string) string {
@@ -1091,6 +1099,13 @@ func genRequest(t *kernel.Tape, u *universe, servers map[string]*agd.Server, kin
 		id = kernel.Pick(t, []string{"adr", "win", "OTR", "xxx", "rt"}, "dev-type") + "-" +
 			kernel.Pick(t, []string{"prof0", "prof1", "prof2", "nosuch", "PROF1"}, "ext-prof") + "-" +
 			kernel.Pick(t, []string{"phone-one", "Phone-One", "tablet", "spare", "newdev", "NewDev"}, "human")
+		if r.srv.Protocol == agd.ProtoDoH && t.Chance(1, 3, "name-not-in-normal-form") {
+			// A name that has to be normalised first (a URL path can carry
+			// it).
+			id = id[:strings.LastIndex(id[:len(id)-1], "-")+1]
+			id = strings.Join(strings.SplitN(id, "-", 3)[:2], "-") + "-" +
+				kernel.Pick(t, []string{"New--Dev!!", "Other_Tab!!", "My--Phone!", "tablet!!!", "Spare__"}, "odd-human")
+		}
 	}
 
 	switch r.srv.Protocol {
